@@ -7,7 +7,7 @@
      functions; each rule function reports and then returns the failing value on every path (error discipline), with floors per rule
  R4  every backend registers the OKL attributes
 """
-from vlib.facts import kids, strip, walk, is_call, call_args, call_object, callee, render, literal
+from vlib.facts import noid, kids, strip, walk, is_call, call_args, call_object, callee, render, literal
 from vlib.cfg import write_target
 from vlib.work import AnalysisBroken
 
@@ -25,7 +25,7 @@ BACKENDS = ["serialParser", "openmpParser", "cudaParser", "hipParser", "openclPa
 RULES = [
     ("non-void return type", NS + "kernelHasValidReturnType", 1, False),
     ("no @outer / no @inner / mismatched nesting across branches", NS + "kernelHasValidOklLoops", 4, False),
-    ("@inner outside @outer, @outer inside @inner", NS + "pathHasValidOklLoopOrdering", 3, False),
+    ("@inner outside @outer, @outer inside @inner, no @inner under an @outer, nesting deeper than 3", NS + "pathHasValidOklLoopOrdering", 5, False),
     ("invalid loop header: init", NS + "oklForStatement::hasValidInit", 6, False),
     ("invalid loop header: check", NS + "oklForStatement::hasValidCheck", 4, False),
     ("invalid loop header: update", NS + "oklForStatement::hasValidUpdate", 4, False),
@@ -235,6 +235,34 @@ def run(ctx):
         R.ob("C22-R3", inreach, q, "reachable-from:kernelsAreValid", "%s:%d" % (f.relfile, f.d["line"]), "rule '%s' is part of the validator's call graph" % what, nontrivial=True)
         n_err = error_discipline(f, errval, q)
         R.ob("C22-R3", n_err >= floor, q, "inventory:%s" % what, "%s:%d" % (f.relfile, f.d["line"]), "%d error reports (floor %d)" % (n_err, floor))
+    # the per-path rules, identified by the condition under which each one rejects (counts are the reference parameters of the function)
+    po = prog.fn(NS + "pathHasValidOklLoopOrdering")
+    pn = [p["n"] for p in po.d["params"]]
+    if len(pn) != 3:
+        raise AnalysisBroken("pathHasValidOklLoopOrdering: parameter list changed")
+    inner_n, outer_n = pn[1], pn[2]
+    WANT = [("@outer inside @inner", (inner_n, True)), ("@inner outside of every @outer", (outer_n, False)), ("@outer path without any @inner", (inner_n, False)),
+            ("more than 3 nested @outer", ("(%s > 3)" % outer_n, True)), ("more than 3 nested @inner", ("(%s > 3)" % inner_n, True))]
+    pcfg = po.cfg
+    PIN = pcfg.facts_in()
+    reports = [c for c in po.walk() if is_call(c) and callee(c).endswith("::printError")]
+    sigs = []
+    for c in reports:
+        # the rule's own guards: the conditions of the if statements whose then-branch encloses the report (structural nesting, so that
+        # an earlier sibling `if (...) return` does not count)
+        sig = set()
+        prev = c
+        for a in po.ancestors(c):
+            if a["k"] == "IfStmt" and len(kids(a)) >= 2 and any(x["i"] == prev["i"] for x in walk(kids(a)[1])):
+                sig |= {(noid(render(n_, True)), pol) for (n_, pol) in pcfg.atoms(kids(a)[0], True, po.local_defs())}
+            prev = a
+        sigs.append(sig)
+    for what, fact in WANT:
+        # the rule's own guard is the innermost one: it must hold at the report, and no other wanted guard of the same variable with the same polarity may shadow it
+        ok = any(fact in s_ for s_ in sigs)
+        R.ob("C22-R3", ok, po.q, "rule:%s" % what, "%s:%d" % (po.relfile, po.d["line"]),
+             "rejected with an error under `%s%s`" % ("" if fact[1] else "!", fact[0]) if ok else
+             "no error is reported under `%s%s`: the shared validator accepts %s, and only some back ends catch it later on their own" % ("" if fact[1] else "!", fact[0], what))
     # loop header rule is wired: kernelHasValidOklLoops -> oklForStatement::isValid -> ctor computes hasValidInit && hasValidCheck && hasValidUpdate
     khl = prog.fn(NS + "kernelHasValidOklLoops")
     iv = [c for c in khl.walk() if is_call(c) and callee(c) == NS + "oklForStatement::isValid"]
